@@ -202,6 +202,17 @@ func (e *Engine) verifyFunc(fn *ssa.Function, fc *FuncContract, safety bool, dev
 			}
 		}
 		fr.appendAliasObligations(allProps(fc))
+		// loop clauses must name a loop that exists (a removed loop takes its
+		// invariants and variants with it: report them instead of dropping them)
+		if nl := len(findLoops(fn).loops); true {
+			for _, l := range [][]*Clause{fc.Invs, fc.Decr} {
+				for _, c := range l {
+					if c.Site == "" && (c.Loop < 1 || c.Loop > nl) {
+						e.contractError(c, fmt.Errorf("%s has no loop %d (%d loops): header %q", fn.Name(), c.Loop, nl, c.Header))
+					}
+				}
+			}
+		}
 		// "#*" site clauses must bind to at least one statement
 		for _, a := range fc.Asserts {
 			if a.Occ != -1 || a.E == nil || a.Optional {
